@@ -339,3 +339,30 @@ def r6(ctx):
         ok = o.kind == "return" and o.value == App("len", (Sym("data", "bytes"),), "int") and len(bw) == 1 and bw[0].args[1] == Sym("data", "bytes")
         ctx.ob("_dispatcher:WrappedDispatcher.send:buffers-whole-frame", ok, f"returns {o.value!r}, buffwrite calls {len(bw)}",
                ctx.index.loc(ctx.index.func("_dispatcher:WrappedDispatcher.send").node))
+
+
+@rule("R-C12-7", min_instances=3, title="the count the transport accepted reaches the resend loop unchanged: WebSocket._send -> (dispatcher.send ->) _socket.send")
+def r7(ctx):
+    idx = ctx.index
+
+    def sock_send(I, run, args, kwargs, node):
+        run.effect("_socket.send", args, kwargs, node=node)
+        return Sym("accepted", "int")
+
+    stubs = dict(BASE_STUBS)
+    stubs["_socket:send"] = sock_send
+    I = Interp(idx, Config(stubs=stubs))
+    for label in ("none", "DispatcherBase", "Dispatcher", "SSLDispatcher"):
+        def body(run, label=label):
+            kw = {}
+            if label != "none":
+                kw["dispatcher"] = I.call(run, Cls(f"_dispatcher:{label}"), [new_obj(run, None, "app"), C(10)], {}, None)
+            ws = mk_websocket(I, run, **kw)
+            return I.call(run, I.getattr(run, ws, "_send", None), [Sym("data", "bytes")], {}, None)
+        for o in ctx.count_paths(I.explore(body)):
+            sends = [e for e in o.effects if e.name == "_socket.send"]
+            ok = o.kind == "return" and o.value == Sym("accepted", "int") and len(sends) == 1 and sends[0].args[1] == Sym("data", "bytes")
+            ctx.ob(f"{W}._send:dispatcher={label}:returns-accepted-count", ok,
+                   f"returns {o.value!r} after {len(sends)} transport write(s)" if ok else
+                   f"with dispatcher={label} _send returns {o.value!r} instead of the count the transport accepted: after a short write the rest of the frame is never sent",
+                   idx.loc(idx.func(f"{W}._send").node), {"path": path_text(o)})
